@@ -531,12 +531,12 @@ fn main() {
         t.sample(run.seed, i as u64, || json!({"input_len": job.data.len(), "entry": format!("{:?}", job.entry), "deviation_bound": job.bound, "all_compositions": job.compositions}));
     });
 
-    // runs of consecutive EINTR answers (1, 2, 3, 2^e-1, 2^e, 2^e+1 up to 2^16) before the first
+    // runs of consecutive EINTR answers (1, 2, 3, 2^e-1, 2^e, 2^e+1 up to 2^20, powers of ten) before the first
     // read, before a middle read and before the read that reports end of file; and a reader that
     // hands out one byte per call for the whole input
     {
-        let mut runs: Vec<usize> = vec![1, 2, 3, 5, 10, 100, 1000, 10000];
-        for e in 2..=16u32 {
+        let mut runs: Vec<usize> = vec![1, 2, 3, 5, 10, 100, 1000, 10000, 100_000, 100_001, 300_000, 1_000_000];
+        for e in 2..=run.pick(20, 22) as u32 {
             for d in [-1i64, 0, 1] {
                 runs.push(((1i64 << e) + d) as usize);
             }
@@ -545,7 +545,7 @@ fn main() {
         runs.dedup();
         let inputs: Vec<Vec<u8>> = vec![vec![], b"a\n$NetBSD$\nb\n".to_vec(), pattern_bytes(20000)];
         let items: Vec<(usize, usize, Entry)> = runs.iter().flat_map(|r| (0..inputs.len()).flat_map(move |i| [Entry::File, Entry::Patch].into_iter().map(move |e| (*r, i, e)))).collect();
-        run.bound(format!("EINTR runs: {} run lengths up to 65537 x 3 inputs x 2 entry points x 3 positions x 6 algorithms; one-byte-per-call reader on inputs up to 70000 bytes", runs.len()));
+        run.bound(format!("EINTR runs: {} run lengths up to 2^20+1 (thorough 2^22+1) x 3 inputs x 2 entry points x 3 positions x 6 algorithms; one-byte-per-call reader on inputs up to 70000 bytes", runs.len()));
         par_items(&run, "C13 EINTR runs", &items, |_, (r, i, entry), t| {
             let data = &inputs[*i];
             for a in mdigest::ALGOS {
@@ -559,6 +559,25 @@ fn main() {
                 }
             }
         });
+        // EINTRs spread over a call rather than consecutive: one before every one-byte read
+        {
+            let mut t = Tally::new();
+            for len in [1000usize, 70_000, 150_000] {
+                let data = pattern_bytes(len);
+                let mut script = Vec::with_capacity(2 * len + 4);
+                for _ in 0..len + 1 {
+                    script.push(Ans::Interrupted);
+                    script.push(Ans::Bytes(1));
+                }
+                for entry in [Entry::File, Entry::Patch] {
+                    for a in ["SHA1", "MD5"] {
+                        let want = want_hash(&data, a, entry);
+                        run_schedule(&mut t, &data, a, entry, &script, &want);
+                    }
+                }
+            }
+            run.merge(t);
+        }
         let mut t = Tally::new();
         for len in [1usize, 100, 8193, 70000] {
             let data = pattern_bytes(len);
